@@ -1,9 +1,23 @@
+import io
+
 from prov import Error
 
 __author__ = "Trung Dong Huynh"
 __email__ = "trungdong@donggiang.com"
 
 __all__ = ["get", "Serializer"]
+
+
+def is_text_stream(stream):
+    """
+    Tell a text stream from a binary one.
+
+    Text streams are the :py:class:`io.TextIOBase` instances and the objects that
+    wrap one without deriving from it (e.g. what :py:func:`tempfile.NamedTemporaryFile`
+    returns in text mode): like every text stream they have an ``encoding``
+    attribute, which binary streams do not have.
+    """
+    return isinstance(stream, io.TextIOBase) or hasattr(stream, "encoding")
 
 
 class Serializer(object):
